@@ -1,8 +1,8 @@
 package an
 
 import (
-	"regexp"
 	"go/types"
+	"regexp"
 
 	"golang.org/x/tools/go/ssa"
 )
